@@ -336,6 +336,26 @@ func (s *scope) setInstance(descriptor *Descriptor, key instanceKey, instance an
 	return nil
 }
 
+// shareInstance makes an instance that this scope already owns resolvable under a
+// further identity (an additional alias of the same registration).
+func (s *scope) shareInstance(descriptor *Descriptor, key instanceKey, instance any) {
+	switch descriptor.Lifetime {
+	case Singleton:
+		s.rootProvider.storeSingleton(key, instance)
+	case Scoped:
+		s.instancesMu.Lock()
+		if s.instances != nil {
+			s.instances[key] = instance
+		}
+		s.instancesMu.Unlock()
+	}
+}
+
+// identity returns the key under which a descriptor's instance is stored.
+func (d *Descriptor) identity() instanceKey {
+	return instanceKey{Type: d.Type, Key: d.Key, Group: d.Group}
+}
+
 // track hands an instance created in this scope over to the scope's disposal list.
 // Close sets the disposed flag before it drains the list under the same mutex, so
 // an instance is either drained by Close or disposed here - never both, never neither.
@@ -550,11 +570,24 @@ func (s *scope) createInstance(descriptor *Descriptor) (any, error) {
 				regKey = reg.Key
 			}
 
-			if reg.Type == descriptor.Type && regKey == descriptor.Key {
+			// Each field belongs to the sibling descriptor registered for it - also
+			// when that is a group member, which has no entry in the service map.
+			var regDescriptor *Descriptor
+			for i, field := range descriptor.resultFields {
+				if field.Name == reg.Name && i < len(descriptor.siblings) {
+					regDescriptor = descriptor.siblings[i]
+				}
+			}
+
+			if regDescriptor == nil {
+				if reg.Type == descriptor.Type && regKey == descriptor.Key {
+					primaryService = value
+				}
+				regDescriptor = s.rootProvider.findDescriptor(reg.Type, regKey)
+			} else if regDescriptor == descriptor {
 				primaryService = value
 			}
 
-			regDescriptor := s.rootProvider.findDescriptor(reg.Type, regKey)
 			if regDescriptor == nil {
 				return nil, &ResolutionError{
 					ServiceType: reg.Type,
@@ -563,11 +596,7 @@ func (s *scope) createInstance(descriptor *Descriptor) (any, error) {
 				}
 			}
 
-			key := instanceKey{
-				Type:  reg.Type,
-				Key:   regKey,
-				Group: reg.Group,
-			}
+			key := regDescriptor.identity()
 
 			if err := s.setInstance(regDescriptor, key, value); err != nil {
 				trackErr = err
@@ -591,6 +620,7 @@ func (s *scope) createInstance(descriptor *Descriptor) (any, error) {
 	// Handle multi-return constructors
 	if descriptor.MultiReturnIndex >= 0 {
 		var trackErr error
+		output := 0
 		for _, ret := range info.Returns {
 			if ret.IsError {
 				continue
@@ -598,8 +628,16 @@ func (s *scope) createInstance(descriptor *Descriptor) (any, error) {
 
 			value := results[ret.Index].Interface()
 
-			// Find the descriptor for this return type
-			serviceDescriptor := s.rootProvider.findDescriptor(ret.Type, nil)
+			// Find the descriptor for this return type: the sibling registered for
+			// this output, whatever key or group it was registered under
+			var serviceDescriptor *Descriptor
+			if output < len(descriptor.siblings) {
+				serviceDescriptor = descriptor.siblings[output]
+			} else {
+				serviceDescriptor = s.rootProvider.findDescriptor(ret.Type, nil)
+			}
+			output++
+
 			if serviceDescriptor == nil {
 				return nil, &ResolutionError{
 					ServiceType: ret.Type,
@@ -643,6 +681,15 @@ func (s *scope) createInstance(descriptor *Descriptor) (any, error) {
 	if err := s.setInstance(descriptor, key, instance); err != nil {
 		return nil, err
 	}
+
+	// A registration with several aliases is one service: the same instance
+	// answers to every alias, and it is owned (and later disposed) once.
+	for _, sibling := range descriptor.siblings {
+		if sibling != descriptor {
+			s.shareInstance(sibling, sibling.identity(), instance)
+		}
+	}
+
 	return instance, nil
 }
 
